@@ -612,6 +612,12 @@ impl<'de, 'a> Visitor<'de> for DurV<'a> {
 pub struct Blind<'a> {
 	pub callbacks: &'a Cell<u64>,
 }
+thread_local! {
+	/// while set, the blind target REFUSES every string / bytes leaf with serde's stock `invalid_type` error, which
+	/// quotes the value it was given (what a caller's type does when it wanted a number, an enum variant, a known
+	/// field name): the decoder must turn that into `Err`, whatever the content quoted
+	pub static BLIND_REJECTS_LEAVES: Cell<bool> = const { Cell::new(false) };
+}
 impl<'de, 'a> DeserializeSeed<'de> for Blind<'a> {
 	type Value = Val;
 	fn deserialize<D: Deserializer<'de>>(self, d: D) -> Result<Val, D::Error> {
@@ -669,10 +675,16 @@ impl<'de, 'a> Visitor<'de> for BlindV<'a> {
 	}
 	fn visit_str<E: de::Error>(self, v: &str) -> Result<Val, E> {
 		self.tick();
+		if BLIND_REJECTS_LEAVES.with(|b| b.get()) {
+			return Err(if v.len() % 2 == 0 { E::invalid_type(de::Unexpected::Str(v), &"a number") } else { E::unknown_variant(v, &["Red", "Green"]) });
+		}
 		Ok(Val::Str(v.to_owned()))
 	}
 	fn visit_bytes<E: de::Error>(self, v: &[u8]) -> Result<Val, E> {
 		self.tick();
+		if BLIND_REJECTS_LEAVES.with(|b| b.get()) {
+			return Err(E::invalid_type(de::Unexpected::Bytes(v), &"a number"));
+		}
 		Ok(Val::Bytes(v.to_vec()))
 	}
 	fn visit_seq<A: SeqAccess<'de>>(self, mut seq: A) -> Result<Val, A::Error> {
